@@ -8,8 +8,8 @@ dst=/verif/seeded/$id; mkdir -p $dst
 cp $wt/patch.diff $dst/patch.diff
 cp $wt/tests/demo.rs $dst/demo.rs 2>/dev/null || cp $wt/tests/*.rs $dst/ 2>/dev/null
 cd $wt
-echo "== demo with change"; cargo test --release --offline --test demo > $dst/demo_with.log 2>&1; with=$?
-git stash push -q -- src; echo "== demo without change"; cargo test --release --offline --test demo > $dst/demo_without.log 2>&1; without=$?; git stash pop -q
+echo "== demo with change"; RUSTFLAGS="--cfg pairing_plus_verif --check-cfg cfg(pairing_plus_verif)" cargo test --release --offline --test demo > $dst/demo_with.log 2>&1; with=$?
+git stash push -q -- src; echo "== demo without change"; RUSTFLAGS="--cfg pairing_plus_verif --check-cfg cfg(pairing_plus_verif)" cargo test --release --offline --test demo > $dst/demo_without.log 2>&1; without=$?; git stash pop -q
 echo "== suite with change"; cargo test --release --offline --lib -- --skip bls12_engine_tests --skip g2_curve_tests --skip fq12_field_tests > $dst/suite.log 2>&1; suite=$?
 echo "demo_with=$with demo_without=$without suite=$suite"; grep "test result" $dst/suite.log | head -2
 cd /repo && git apply $dst/patch.diff || { echo "patch does not apply to /repo"; exit 2; }
